@@ -204,6 +204,22 @@ class TranslateError(Exception):
     pass
 
 
+def vary_layout(arr, k):
+    """The same values in another memory layout (what slicing, selection or transposition leave behind): 0 as given,
+    1 Fortran order, 2 a strided view (every second element of a doubled leading axis), 3 a reversed-stride view on the
+    last axis.  No library operation may depend on the layout of its input."""
+    import numpy as np
+    k = k % 4
+    if k == 0 or arr.ndim < 2 or arr.size == 0:
+        return arr
+    if k == 1:
+        return np.asfortranarray(arr)
+    if k == 2:
+        big = np.repeat(arr, 2, axis=0)
+        return big[::2]
+    return np.ascontiguousarray(arr[..., ::-1])[..., ::-1]
+
+
 def case_digest(case):
     c = {k: v for k, v in case.items() if not k.startswith("_")}
     return hashlib.sha1(json.dumps(c, sort_keys=True, default=str).encode()).hexdigest()[:12]
